@@ -769,6 +769,14 @@ def r11(R):
 def r12(R):
     f = R.prog.func(REPOZO + '.find_files')
     n = 0
+    # the date, by role: a local bound to options.date (or to the file name
+    # generated for "now")
+    dates = {t.id for a in walk_local(f.node) if isinstance(a, ast.Assign)
+             and any(isinstance(x, ast.Attribute) and x.attr == 'date' or
+                     isinstance(x, ast.Call) and dotted(x.func) and
+                     dotted(x.func)[-1] == 'gen_filename'
+                     for x in ast.walk(a.value))
+             for t in a.targets if isinstance(t, ast.Name)}
     for loop in walk_local(f.node):
         if not isinstance(loop, ast.For) or not isinstance(
                 loop.target, ast.Name):
@@ -779,7 +787,7 @@ def r12(R):
                     isinstance(c.ops[0], (ast.LtE, ast.Lt, ast.GtE, ast.Gt))):
                 continue
             sides = [c.left, c.comparators[0]]
-            if not any(isinstance(s_, ast.Name) and s_.id == 'when' or
+            if not any(isinstance(s_, ast.Name) and s_.id in dates or
                        dotted(s_) == ('options', 'date') for s_ in sides):
                 continue
             n += 1
